@@ -149,6 +149,9 @@ class Builder:
         """A signal owned by nobody ("orphan") or by another module (named by t["owner"])."""
         h = self.h
         key = (t["owner"], t["n"])
+        if t["owner"].startswith("design:"):
+            # a signal of another module of this very design
+            return self.module(t["owner"][len("design:"):]).get(t["n"])
         if key not in self.foreign:
             sig = h.Signal(name=t["n"], width=t["w"])
             if t["owner"] != "orphan":
